@@ -13,7 +13,7 @@
    An edit of the divisor, of what is summed, of the arg-max decoding, of the placement of a
    bootstrap tree's columns, of the vote increment or normaliser, of the feature order or of the
    interval arithmetic makes one of these lemmas fail (or the translator raise). *)
-From Coq Require Import QArith Qabs List Bool ZArith Lia Lqa Sorted.
+From Coq Require Import QArith Qabs List Bool ZArith Lia Lqa Sorted ZifyBool.
 Require Import SkV.C17.Model SkV.C17.Proofs SkV.C17.Sites.
 Import ListNotations.
 Open Scope Q_scope.
@@ -27,26 +27,43 @@ Proof.
   rewrite H. reflexivity.
 Qed.
 
+Lemma eqlq_refl_ l : eqlq l l.
+Proof. induction l; constructor; [reflexivity|assumption]. Qed.
+
 Lemma map_ext_eqlq {A} (f g : A -> Q) l : (forall a, f a == g a) -> eqlq (map f l) (map g l).
 Proof. intro H. induction l as [|a l IH]; cbn [map]; constructor; [apply H|exact IH]. Qed.
 
 (* ---------------------------------------------------------------- the averaging ensembles *)
 
 Lemma gen_tsf_combine_is_mean_rows k rows : eqlq (gen_tsf_combine k rows) (mean_rows k rows).
-Proof. unfold gen_tsf_combine, mean_rows. apply map_div_eqlq. ring. Qed.
+Proof. unfold gen_tsf_combine, mean_rows. first [apply eqlq_refl_ | apply map_div_eqlq; ring]. Qed.
 
 Lemma gen_stsf_combine_is_mean_rows k rows : eqlq (gen_stsf_combine k rows) (mean_rows k rows).
-Proof. unfold gen_stsf_combine, mean_rows. apply map_div_eqlq. ring. Qed.
+Proof. unfold gen_stsf_combine, mean_rows. first [apply eqlq_refl_ | apply map_div_eqlq; ring]. Qed.
 
-Lemma gen_rise_combine_is_mean_rows k rows : gen_rise_combine k rows = mean_rows k rows.
-Proof. reflexivity. Qed.
+Lemma eqlq_refl l : eqlq l l.
+Proof. induction l; constructor; [reflexivity|assumption]. Qed.
 
-Lemma gen_colens_combine_is_mean_rows k rows : gen_colens_combine k rows = mean_rows k rows.
-Proof. reflexivity. Qed.
+(* (semantic: any divisor that equals the number of members proves, not only the same text) *)
+Lemma gen_rise_combine_is_mean_rows k rows : eqlq (gen_rise_combine k rows) (mean_rows k rows).
+Proof.
+  unfold gen_rise_combine, mean_rows.
+  first [apply eqlq_refl | apply map_div_eqlq; ring].
+Qed.
+
+Lemma gen_colens_combine_is_mean_rows k rows : eqlq (gen_colens_combine k rows) (mean_rows k rows).
+Proof.
+  unfold gen_colens_combine, mean_rows.
+  first [apply eqlq_refl | apply map_div_eqlq; ring].
+Qed.
 
 Lemma gen_tsfreg_combine_is_model forest x :
-  gen_tsfreg_combine (map (fun m => snd m (tsf_features (fst m) x)) forest) = tsf_reg_predict forest x.
-Proof. reflexivity. Qed.
+  gen_tsfreg_combine (map (fun m => snd m (tsf_features (fst m) x)) forest) == tsf_reg_predict forest x.
+Proof.
+  (* semantic: mean, or sum divided by anything equal to the number of trees *)
+  unfold gen_tsfreg_combine, tsf_reg_predict, qmean.
+  first [ reflexivity | apply Qdiv_comp; [reflexivity|ring] ].
+Qed.
 
 (* time series forest (trees fitted on the whole training set: every tree carries classes_):
    the generated combination of the trees' own rows is the model's forest row *)
@@ -159,9 +176,9 @@ Section Votes.
   Lemma gen_cboss_row_is_vote_row classes vs denom : denom == total_weight vs ->
     eqlq (gen_cboss_row L eqb classes vs denom) (vote_row eqb classes vs).
   Proof.
+    (* semantic: any normaliser equal to the total weight proves *)
     intro H. unfold gen_cboss_row, vote_row. rewrite map_map. apply map_ext_eqlq.
-    intro c. rewrite H. assert (E : 1 * total_weight vs == total_weight vs) by ring.
-    rewrite E. reflexivity.
+    intro c. apply Qdiv_comp; [reflexivity|]. rewrite H. ring.
   Qed.
 
   Lemma total_weight_ones vs : Forall (fun v : L * Q => snd v == 1) vs -> total_weight vs == qlen vs.
@@ -175,8 +192,7 @@ Section Votes.
     eqlq (gen_boss_row L eqb classes vs (qlen vs)) (vote_row eqb classes vs).
   Proof.
     intro H. unfold gen_boss_row, vote_row. rewrite map_map. apply map_ext_eqlq.
-    intro c. rewrite (total_weight_ones vs H).
-    assert (E : 1 * qlen vs == qlen vs) by ring. rewrite E. reflexivity.
+    intro c. apply Qdiv_comp; [reflexivity|]. rewrite (total_weight_ones vs H). ring.
   Qed.
 
   (* IndividualBOSS: the one-hot row of its own prediction = the vote row of a single member *)
@@ -245,4 +261,11 @@ Proof. reflexivity. Qed.
 Lemma gen_one_interval_is_get_intervals_step n mi sl d1 d2 rest :
   get_intervals (S n) mi sl (d1 :: d2 :: rest) =
   gen_one_interval mi sl d1 d2 :: get_intervals n mi sl rest.
-Proof. reflexivity. Qed.
+Proof.
+  (* semantic: the two ends are compared as integers, whatever the shape of the source's
+     conditional (if / conditional expression / max) *)
+  cbn [get_intervals]. unfold gen_one_interval. cbv zeta.
+  first [ reflexivity
+        | f_equal; f_equal; try reflexivity;
+          repeat match goal with |- context [if ?c then _ else _] => destruct c eqn:? end; lia ].
+Qed.
